@@ -89,15 +89,20 @@ def oracle(case, res):
         return "the process crashed: " + (res or {}).get("crash", "")[-300:]
     if "preserving" not in case:
         return None
-    for o in (res.get("ops") or []):
+    for o in (res.get("ops") or res.get("ops_shared") or []):
         if o.get("err"):
             return None      # an operation was refused (e.g. after shrinking): nothing to judge
     sent = sum(e.get("n", 0) for e in case["src"])
     had_timeout = any(t["type"] == "timeout" for t in case["chain"]) or any((o.get("toxic") or {}).get("type") == "timeout" for o in case["ops"])
     if not res["subseq_ok"]:
         return "what the receiver got is not an in-order part of what was sent (bytes duplicated, reordered or altered)"
+    if any(o.get("done", 0) - o.get("at", 0) >= 5000 * L.MS for o in (res.get("ops") or res.get("ops_shared") or [])):
+        return None      # see below: decided by the model
     if not had_timeout and not res["prefix_ok"]:
         return "bytes were lost from the middle of the stream although no timeout toxic was applied (received %d of %d)" % (res["total"], sent)
+    # the property's premise: nothing downstream of a change holds a piece of data for five seconds or longer. A hand-off given up after
+    # 5 s drops the piece by design; an operation that lasted five seconds or more may contain one, and whether it did is decided by the
+    # executable model (model_oracle below), which loses data only through such a give-up
     if case["preserving"]:
         if res["total"] != sent:
             return "only data-preserving toxics were involved but %d of %d bytes arrived" % (res["total"], sent)
@@ -106,6 +111,19 @@ def oracle(case, res):
             return "only data-preserving toxics were involved but the receiver never saw the end of the stream"
         if res["closed"] < srcclose:
             return "the connection was closed at %d ns, before the sender closed (%d ns)" % (res["closed"], srcclose)
+    return None
+
+
+def model_oracle(case, res, m):
+    """an operation lasted five seconds or more: the model (which loses data only where a single hand-off is given up after 5 s)
+    says whether a give-up was part of it. If the model delivers everything and the implementation did not, bytes were lost although
+    no hand-off lasted five seconds."""
+    if "preserving" not in case or not case["preserving"] or m["total"] < 0 or m["verdict"] in (1, 7):
+        return None
+    sent = sum(e.get("n", 0) for e in case["src"])
+    if m["total"] == sent and res["total"] < sent:
+        return ("only data-preserving toxics were involved and no single hand-off lasted five seconds (the model, which loses data only when "
+                "one does, delivers all %d bytes) but %d of %d bytes arrived" % (sent, res["total"], sent))
     return None
 
 
@@ -120,8 +138,9 @@ def run(ctx):
              "slow receiver (< 5 s per write), a quarter with 2-3 connections; non-trivial = an operation lands before the last chunk; distinct by JSON",
         nontrivial=lambda c: bool(c.get("ops")) and c["ops"][0]["at"] < max(e["at"] for e in c["src"]),
         assumptions=["executions in which a hand-off blocks for five seconds or more are outside the property (generators keep every hand-off far below)",
-                     "the control steps of Model/Reconf.v are tied to link.go by reading and by these runs' oracle, not by an executable comparison"],
-        model_filter=lambda c: False)
+                     "single-connection scripts with toxicity 0/1 are replayed through the executable reconfiguration model (Model/ReconfRun.v) and "
+                     "compared to the nanosecond; scripts with several connections are judged by the oracle only"],
+        model_filter=lambda c: False, model_oracle=model_oracle)
 
 
 def replay(ctx, path):
